@@ -46,7 +46,7 @@ def val_text(v):
     return v
 
 
-def render_c(items, seed=0, fortran=False, uid="x", plain=False, drop=(), xstr=False, dotted=False):
+def render_c(items, seed=0, fortran=False, uid="x", plain=False, drop=(), xstr=False, dotted=False, fchain=False):
     """
     Returns (text, lines_of_item) where lines_of_item[i] (0-based item index) is the list of
     physical line numbers (1-based) that the item contributes as counted lines.
@@ -54,6 +54,9 @@ def render_c(items, seed=0, fortran=False, uid="x", plain=False, drop=(), xstr=F
     indentation) vary with `seed` and must not change what is counted.
     With `xstr` (the command line then defines XSTR(x) as #x) a macro whose value is a quoted header name may be
     written `XSTR( name )`: a function-like macro with stringification in the operand of a computed include.
+    With `fchain` (Fortran only) ALL code items are the lines of ONE continued statement, so that the
+    directives stand between its continuation lines (the preprocessor runs first, whatever subset survives is a
+    valid statement: the first and the last code item are unconditional).
     Code items whose index is in `drop` are rendered as nothing countable (no line, a blank line or
     a comment): directives then follow each other directly, and a file may begin / end with one.
     """
@@ -92,6 +95,16 @@ def render_c(items, seed=0, fortran=False, uid="x", plain=False, drop=(), xstr=F
                 if rnd.random() < 0.5:
                     out.append(rnd.choice(["", cmt_full]))
                 lines_of.append([])
+                continue
+            if fortran and fchain:
+                ncodes = sum(1 for x in items if x["k"] == "code")
+                if ncode == 1:
+                    ls = emit(f"{uid}1 = 1 + &" + rnd.choice(["", " ! c"]))
+                elif ncode == ncodes:
+                    ls = emit(rnd.choice(["  & ", "    "]) + f"{ncode}")
+                else:
+                    ls = emit(rnd.choice(["  & ", "    "]) + f"{ncode} + &" + rnd.choice(["", " ! c"]))
+                lines_of.append(ls)
                 continue
             if fortran:
                 v = rnd.choice([f"{uid}{ncode} = {ncode}", f"call f({uid}{ncode})", f"{uid}{ncode} = 'a!b' // \"c&d\""])
